@@ -73,6 +73,19 @@ def run(tier, seed, replay=None):
         pre = [["eq", "x", shape], branch] if rnd.random() < 0.8 else [branch, ["eq", "x", shape]]
         body = [["fresh", ["x", "a", "b", "z"]] + pre + [["project", ["x"]] + inner]]
         cases.append(mk_case([], ["q"], body, maxans=30, budget=4000))
+    # the projected NAME holds a structured term (a relation parameter that was passed a list / compound with variables in it),
+    # not a variable: the body still sees the full walk* of that term in the arriving state
+    for _ in range(n // 3):
+        vals = [rnd.randint(-3, 4) for _ in range(rnd.randint(2, 3))]
+        shape = rnd.choice([["list", "a", "b"], ["ilist", "a", "b"], ["comp", "Pair", "a", 2], ["list", "a"], ["list", ["list", "a"], 3]])
+        style = rnd.choice(["closure", "direct"])
+        d = ["def", "sqo", ["params", "l", "out"], style, ["project", ["l"], ["sq", "l", "out"]]]
+        d2 = ["def", "sho", ["params", "l", "out"], style, ["project", ["l"], ["sq", "l", "z9"], ["eq", "out", ["list", "l", "z9"]]]]
+        d2[4] = ["fresh", ["z9"], d2[4]]
+        branch = rnd.choice([["lib", "member", "a", ["list"] + vals], ["cond"] + [["conj", ["eq", "a", v], ["eq", "b", v + 1]] for v in vals]])
+        call = rnd.choice([["call", "sqo", shape, "q"], ["call", "sho", shape, "q"]])
+        body = [["fresh", ["a", "b"], branch, call]] if rnd.random() < 0.8 else [["fresh", ["a", "b"], call, branch]]
+        cases.append(mk_case([d, d2], ["q"], body, maxans=30, budget=4000))
     return pcheck.run_check("C11", tier, seed, cases, "exact", oracle, cone=CONE, replay=replay,
         rule="a project goal reached by 1-4 states (through member, conde, a conjunction, or with the variable unbound / bound to a list) "
              "whose body squares the projected value non-relationally, directly, after other goals, inside a disjunction, after a multi-answer "
